@@ -3,7 +3,7 @@ ExecutionController.update_plan and create_ast_from_phase).
 
 Input format (JSON-able, self-contained):
 
-    {"phases": [{"name": str, "next": str, "stmts": [S, ...]}, ...], "initial": str}
+    {"phases": [{"name": str, "next": str, "stmts": [S, ...], "obj_name": optional str}, ...], "initial": str}
     S ::= {"id": str, "kind": K, "deps": [str, ...]}
     K ::= "nop"                      Nop
         | "assign"                   Assign  v_<id> <- 1
@@ -69,7 +69,8 @@ def build_stmt(s):
 def build(inp):
     phases = {}
     for p in inp["phases"]:
-        phases[p["name"]] = lang.ExecutionPhase(p["name"], p["next"], [build_stmt(s) for s in p["stmts"]])
+        # the method's phases are the KEYS of the mapping; the ExecutionPhase object may carry another name ("obj_name")
+        phases[p["name"]] = lang.ExecutionPhase(p.get("obj_name", p["name"]), p["next"], [build_stmt(s) for s in p["stmts"]])
     return lang.DAGCode(phases, inp["initial"])
 
 
@@ -447,6 +448,17 @@ def bounded(payload):
     for sizes in kind_shapes:
         for inp in kind_family(sizes):
             run(inp, "kinds_%s" % "+".join(map(str, sizes)))
+    # phase objects whose own name differs from the key they are stored under: targets are looked up among the keys
+    for keys, objs in ((("primary",), ("main",)), (("primary", "other"), ("main", "primary")), (("a", "b"), ("b", "a"))):
+        for tgt in sorted(set(keys) | set(objs) | {"nowhere"}):
+            for where in range(len(keys)):
+                phs = []
+                for i, (k_, o_) in enumerate(zip(keys, objs)):
+                    st = [{"id": "s0", "kind": "assign", "deps": []}]
+                    if i == where:
+                        st.append({"id": "s1", "kind": "switch:" + tgt, "deps": ["s0"]})
+                    phs.append({"name": k_, "obj_name": o_, "next": keys[(i + 1) % len(keys)], "stmts": st})
+                run({"phases": phs, "initial": keys[0]}, "phase_object_names")
     # random tail
     for i in range(n_random):
         inp = random_input(rng, rand_max)
